@@ -55,13 +55,54 @@ def _guard(fn, b, rx, direct=False):
     return any(re.search(rx, g) for g in gs)
 
 
+def _contract_test(F, fn, b, taken, direct=False):
+    """Block b is controlled (direct) / dominated by the `taken` edge of `response_buf.len() < minimum`, where the minimum
+    is, by provenance, u16::MAX under TCP and the configured EDNS payload size under UDP (a variable assigned on the two
+    arms of the transport match, one component of a tuple built per arm, ...)."""
+    from qv.rulelib import enum_variants
+    edges = sorted(fn.control_deps().get(b, ())) if direct else []
+    if not direct:
+        for s_ in fn.doms(b):
+            ps = [p for p in fn.preds()[s_] if p in fn.idom() and not fn.dominates(s_, p)]
+            if len(ps) == 1:
+                edges.append((ps[0], s_))
+    tv = enum_variants(F, 'server::Transport')
+    for (p, s_) in edges:
+        t = fn.blocks[p]['term']
+        if t['k'] != 'switch' or not is_place(t['op']) or t['op']['pl']['p']:
+            continue
+        sd = fn.single_def(t['op']['pl']['l'])
+        if not sd or sd[2] != 'assign' or sd[3]['rv']['k'] != 'bin' or sd[3]['rv']['op'] != 'Lt':
+            continue
+        is_true = (t['otherwise'] == s_ and not [v for v, tb in t['targets'] if tb == s_])
+        if is_true != taken:
+            continue
+        if paths.show_operand(fn, sd[3]['rv']['a']) != 'slice::len(arg4)' or not is_place(sd[3]['rv']['b']):
+            continue
+        c = fn.canon(sd[3]['rv']['b']['pl'])
+        vals = {}
+        for lf in origins.trace(fn, c['l'], origins.norm_path(c['p']), at=(sd[0], sd[1])):
+            if lf[0] == 'const':
+                v, bb = paths.show_operand(fn, lf[1]), lf[2]
+            elif lf[0] == 'rv' and lf[3].get('k') in ('use', 'cast'):
+                v, bb = paths.show_operand(fn, lf[3]['op']), lf[1]
+            else:
+                vals['?'] = lf[0]
+                continue
+            g = [x for x in paths.dom_guards(fn, bb) if re.match(r'^discr\(arg3\.transport\) in \[\d\]$', x)]
+            vals[tv[int(re.search(r'\[(\d)\]', g[-1]).group(1))] if g else '?'] = v
+        if set(vals) == {'Tcp', 'Udp'} and vals['Tcp'] in ('u16::MAX', 'cast(u16::MAX)', '65535_usize') and vals['Udp'] in ('arg1.edns_udp_payload_size', 'cast(arg1.edns_udp_payload_size)'):
+            return True
+    return False
+
+
 def contract_panic(F, fn, b):
-    ok = _guard(fn, b, r'^Lt\(slice::len\(arg4\),var:usize\) not in \[0\]$', direct=True)
+    ok = _contract_test(F, fn, b, True, direct=True)
     return ok, 'the only explicit panic of handle_message is the documented response-buffer size contract'
 
 
 def writer_new_premise(F, fn, b):
-    ok = _guard(fn, b, r'^Lt\(slice::len\(arg4\),var:usize\) in \[0\]$')
+    ok = _contract_test(F, fn, b, False)
     # the minimum sizes are 65535 (TCP) and edns_udp_payload_size (UDP), the latter >= 512 by construction
     sw = [paths.show_operand(fn, st['rv']['op']) for blk in fn.blocks for st in blk['stmts'] if st['k'] == 'assign' and st['rv']['k'] == 'use' and 'edns_udp_payload_size' in paths.show_operand(fn, st['rv']['op'])]
     wr = effects.writers_of(F, 'server::Server', 'edns_udp_payload_size', kinds=('assign', 'calldest', 'mutborrow')).get('edns_udp_payload_size', {})
